@@ -352,7 +352,531 @@ class ParticipationRatio(Unit):
         return {"ran": True, "failed": False, "searched": 300}
 
 
-UNITS = [PairMatrix(), ParticipationRatio()]
+
+# ----------------------------------------------------------------------------------------------------------------
+# diagonalize_hessian
+
+RU = "PyMatterSim.reader.reader_utils"
+F_T = [z3.Function(n, z3.RealSort(), z3.RealSort(), z3.RealSort(), z3.RealSort(), z3.BoolSort(), z3.RealSort())
+       for n in ("dsdr", "dsdr_rc", "d2sdr2")]
+
+
+def triple_of(r, eps, sig, rc, shift):
+    """[s'(r), s'(rc)|0, s''(r)] of the potential selected by interaction_params for the pair parameters (eps, sig, rc):
+    the contract of PairInteractions.caller (C12: equal to the derivatives of the documented s(r)), *generalised* to an
+    arbitrary function of the same arguments (universal generalisation: what is proved for every such function holds for
+    the three documented potentials)."""
+    args = [sv.zr(r), sv.zr(eps), sv.zr(sig), sv.zr(rc), sv.zb(shift) if not isinstance(shift, bool) else z3.BoolVal(shift)]
+    return [sv.SV(f(*args)) for f in F_T]
+
+
+def _pick2(tab, i, j):
+    return A._pick([A._pick(row, j) for row in tab], i)
+
+
+class Sys:
+    """symbolic system + the spec functions over it"""
+
+    def __init__(self, ctx, d, K):
+        from contracts import C02
+        self.d, self.K = d, K
+        N = self.N = ctx.int("N")
+        ctx.assume(N >= 1)
+        self.pos = ctx.array("pos", (N, d), "float", origin="snapshot.positions")
+        self.ptype = ctx.array("ptype", (N,), "int", origin="snapshot.particle_type")
+        from pyvc import axioms
+        axioms.QFACTS["ptype"] = lambda app, K=K: [z3.And(app >= 1, app <= K)]       # every particle type is one of 1..K
+        self.Hm = C02._mat(ctx, "H", d, "general")
+        self.H = A.from_nested(self.Hm, "float")
+        ctx.state.origin[self.H.sid] = "snapshot.hmatrix"
+        self.det, self.G = C02._inv_spec(self.Hm, d)
+        ctx.assume(sv.cmp("!=", self.det, 0))
+        self.p = [ctx.int(f"ppp_{k}") for k in range(d)]
+        for pk in self.p:
+            ctx.assume(sv.or_(sv.cmp("==", pk, 0), sv.cmp("==", pk, 1)))
+        self.ppp = A.from_nested(self.p, "int")
+        ctx.state.origin[self.ppp.sid] = "ppp"
+        self.m = [ctx.real(f"m_{a + 1}") for a in range(K)]
+        for x in self.m:
+            ctx.assume(x > 0)
+        self.eps_t = [[ctx.real(f"eps_{a + 1}{b + 1}") for b in range(K)] for a in range(K)]
+        self.sig_t = [[ctx.real(f"sig_{a + 1}{b + 1}") for b in range(K)] for a in range(K)]
+        self.rc_t = [[ctx.real(f"rc_{a + 1}{b + 1}") for b in range(K)] for a in range(K)]
+        for a in range(K):
+            for b in range(K):
+                ctx.assume(self.sig_t[a][b] > 0)
+                ctx.assume(self.rc_t[a][b] > 0)
+        self.eps, self.sig, self.rc = (A.from_nested(t, "float") for t in (self.eps_t, self.sig_t, self.rc_t))
+        for arr_, nme in ((self.eps, "epsilons"), (self.sig, "sigmas"), (self.rc, "r_cuts")):
+            ctx.state.origin[arr_.sid] = nme
+        self.shift = ctx.bool("shiftpotential")
+        self.masses = ctx.pydict({a + 1: self.m[a] for a in range(K)})
+        z = A.zeros((d,), "float")
+        self.snapshot = ctx.obj(RU, "SingleSnapshot", dict(timestep=0, nparticle=N, particle_type=self.ptype, positions=self.pos,
+                                                           boxlength=z, boxbounds=z, realbounds=z, hmatrix=self.H))
+        self.obj = ctx.obj(MOD, "HessianMatrix", dict(snapshot=self.snapshot, masses=self.masses, epsilons=self.eps, sigmas=self.sig,
+                                                      r_cuts=self.rc, ppp=self.ppp, ndim=d, shiftpotential=self.shift))
+        self.inputs = [self.pos.sid, self.ptype.sid, self.H.sid, self.ppp.sid, self.eps.sid, self.sig.sid, self.rc.sid]
+
+    # ---- spec functions (all at symbolic particle indices)
+    def ty(self, i):
+        return sv.sub(self.ptype.get((i,)), 1)
+
+    def Dvec(self, i, j):
+        """minimum image of r_i - r_j (contract of remove_pbc, C02)"""
+        from contracts import C02
+        row = [sv.sub(self.pos.get((i, c)), self.pos.get((j, c))) for c in range(self.d)]
+        return C02.pbc_spec_row(row, self.Hm, self.G, self.p, self.d)
+
+    def r2(self, i, j):
+        return _sum([sv.mul(x, x) for x in self.Dvec(i, j)])
+
+    def dist(self, i, j):
+        return sv.sqrt(self.r2(i, j))
+
+    def par(self, tab, i, j):
+        return _pick2(tab, self.ty(i), self.ty(j))
+
+    def within(self, i, j):
+        """the pair (i, j), i != j, interacts: r_ij <= rc"""
+        return sv.and_(sv.cmp("!=", j, i), sv.cmp("<=", self.dist(i, j), self.par(self.rc_t, i, j)))
+
+    def block(self, i, j, which="ii"):
+        """second derivative block of phi_{t_i t_j}(|a - b|) at a - b = D(i,j)"""
+        r = self.dist(i, j)
+        T = triple_of(r, self.par(self.eps_t, i, j), self.par(self.sig_t, i, j), self.par(self.rc_t, i, j), self.shift)
+        return block_spec(self.Dvec(i, j), sv.sub(T[0], T[1]), T[2], self.d, which=which)
+
+    def w_off(self, i, j):
+        K = self.K
+        return _pick2([[sv.div(sv.to_frac(1.0), sv.sqrt(sv.mul(self.m[a], self.m[b]))) for b in range(K)] for a in range(K)], self.ty(i), self.ty(j))
+
+    def w_diag(self, i):
+        return A._pick([sv.div(sv.to_frac(1.0), self.m[a]) for a in range(self.K)], self.ty(i))
+
+    # ---- the same spec functions as *named* functions of the particle indices (opaque in the loop proofs; `defs` reveals
+    #      their definition at an instance: a conservative extension by definitions)
+    F_WITHIN = z3.Function("within_rc", z3.IntSort(), z3.IntSort(), z3.BoolSort())
+    F_BD = z3.Function("Bdiag", z3.IntSort(), z3.IntSort(), z3.IntSort(), z3.IntSort(), z3.RealSort())    # B(D(i,j))[p][q] / m_i
+    F_BO = z3.Function("Boff", z3.IntSort(), z3.IntSort(), z3.IntSort(), z3.IntSort(), z3.RealSort())     # -B(D(i,j))[p][q] / sqrt(m_i m_j)
+
+    def WITHIN(self, i, j):
+        return sv.SV(self.F_WITHIN(sv.znum(i), sv.znum(j)))
+
+    def BD(self, i, j, p, q):
+        return sv.SV(self.F_BD(sv.znum(i), sv.znum(j), sv.znum(p), sv.znum(q)))
+
+    def BO(self, i, j, p, q):
+        return sv.SV(self.F_BO(sv.znum(i), sv.znum(j), sv.znum(p), sv.znum(q)))
+
+    def defs(self, i, j):
+        """definitions of within_rc, Bdiag, Boff at the pair (i, j) (z3 facts)"""
+        d = self.d
+        Bii, Bij = self.block(i, j, "ii"), self.block(i, j, "ij")
+        out = [self.F_WITHIN(sv.znum(i), sv.znum(j)) == sv.zb(self.within(i, j))]
+        for p in range(d):
+            for q in range(d):
+                out.append(sv.zb(sv.cmp("==", self.BD(i, j, p, q), sv.mul(Bii[p][q], self.w_diag(i)))))
+                out.append(sv.zb(sv.cmp("==", self.BO(i, j, p, q), sv.mul(Bij[p][q], self.w_off(i, j)))))
+        return out
+
+    def sqrt_mm(self):
+        """instances sqrt(m_a m_a) = m_a of the lemma `x > 0 => sqrt(x x) = x` (proved once, extra_checks)"""
+        return [sv.zb(sv.cmp("==", sv.sqrt(sv.mul(x, x)), x)) for x in self.m]
+
+    def diag_sum(self, i, p, q, upto=None):
+        """sum_{t < upto, t != i, r_it <= rc} B(D(i,t))[p][q] / m_i   (p, q may be symbolic)"""
+        upto = self.N if upto is None else upto
+        return Sum(0, upto, lambda t: sv.ite(self.WITHIN(i, t), lambda: self.BD(i, t, p, q), sv.to_frac(0.0)))
+
+    def off_entry(self, i, j, p, q):
+        return self.BO(i, j, p, q)
+
+    def hessian_spec(self, a, b):
+        """entry (a, b) of M^-1/2 d2U M^-1/2, a = i d + p, b = j d + q"""
+        d = self.d
+        i, p, j, q = sv.floordiv(a, d), sv.mod(a, d), sv.floordiv(b, d), sv.mod(b, d)
+        return sv.ite(sv.cmp("==", i, j), lambda: self.diag_sum(i, p, q),
+                      lambda: sv.ite(self.WITHIN(i, j), lambda: self.off_entry(i, j, p, q), sv.to_frac(0.0)))
+
+
+def _find_loops(qualname="HessianMatrix.diagonalize_hessian"):
+    """line numbers of the particle loops `for i in range(nparticle)` / nested `for j in range(nparticle)` of the real AST"""
+    import ast
+
+    from pyvc.interp import load_module
+    m = load_module(MOD)
+    node = m.get_class("HessianMatrix").methods["diagonalize_hessian"]
+    for n in ast.walk(node):
+        if isinstance(n, ast.For):
+            inner = [x for b in n.body for x in ast.walk(b) if isinstance(x, ast.For)]
+            stores = [x for b in n.body for x in ast.walk(b) if isinstance(x, (ast.AugAssign,)) and isinstance(x.target, ast.Subscript)]
+            if inner and stores and "remove_pbc" in ast.unparse(n):
+                return n.lineno, inner[0].lineno
+    return None, None
+
+
+class Diagonalize(Unit):
+    module = MOD
+    qualname = "HessianMatrix.diagonalize_hessian"
+    prop = "C11"
+    timeout = 5
+    solver_opts = {"abstract_nl": True}
+
+    def cases(self):
+        return ["d=2/K=2", "d=3/K=2"]
+
+    # ------------------------------------------------------------------------------------------ callee contracts
+    def _summaries(self, S):
+        from pyvc.interp import PyRaise, new_list
+        from pyvc.state import cur
+        from contracts import C02
+        d = S.d
+
+        def s_remove_pbc(interp, args, kwargs):
+            names = ["RIJ", "hmatrix", "ppp"]
+            a = dict(zip(names, args))
+            a.update(kwargs)
+            R, Hh = a["RIJ"], a["hmatrix"]
+            if "ppp" not in a:
+                raise PyRaise("contract", "remove_pbc called without ppp: the default mask [1,1,1] is not the system's mask")
+            P = a["ppp"]
+            if not (isinstance(R, A.Arr) and R.ndim == 2 and A.dim_eq_syntactic(R.shape[1], d)):
+                raise PyRaise("contract", "remove_pbc: RIJ must have shape (n, d)")
+            Hm = A.to_list(Hh)
+            p = A.to_list(P)
+            det, G = C02._inv_spec(Hm, d)
+            cur().require(sv.cmp("!=", det, 0), "call:remove_pbc:pre:det!=0")
+            cur().require(sv.and_(*[sv.or_(sv.cmp("==", x, 0), sv.cmp("==", x, 1)) for x in p]), "call:remove_pbc:pre:mask-in-{0,1}")
+            rd = R.reader()
+            n = R.shape[0]
+            return A.new_arr((n, d), lambda idx: A._pick(C02.pbc_spec_row([rd((idx[0], c)) for c in range(d)], Hm, G, p, d), idx[1]), "float")
+
+        def s_caller(interp, args, kwargs):
+            o = args[0]
+            ip = args[1] if len(args) > 1 else kwargs.get("interaction_params")
+            c = o.content
+            cur().require(ip is S.ip or (hasattr(ip, "sid") and ip.sid == S.ip.sid), "call:caller:pre:interaction_params-passed-through")
+            cur().require(sv.and_(sv.cmp(">", c["r"], 0), sv.cmp(">", c["sigma"], 0), sv.cmp(">", c["r_c"], 0)), "call:caller:pre:r,sigma,rc>0")
+            return new_list(triple_of(c["r"], c["epsilon"], c["sigma"], c["r_c"], c["shift"]))
+
+        def s_pair_matrix(interp, args, kwargs):
+            o, R, dud = args[0], args[1], args[2]
+            if not (isinstance(R, A.Arr) and R.ndim == 1 and A.dim_eq_syntactic(R.shape[0], d)):
+                raise PyRaise("contract", "pair_matrix: Rji must have shape (d,)")
+            cur().require(o.content["ndim"] == d, "call:pair_matrix:pre:ndim")
+            x = [R.get((c,)) for c in range(d)]
+            cur().require(sv.cmp(">", _sum([sv.mul(v, v) for v in x]), 0), "call:pair_matrix:pre:r>0")
+            t = interp.iter_concrete(dud)
+            if len(t) != 3:
+                raise PyRaise("contract", "pair_matrix: dudrs must have 3 entries")
+            phi1 = sv.sub(t[0], t[1])
+            return (A.from_nested(block_spec(x, phi1, t[2], d, which="ii"), "float"), A.from_nested(block_spec(x, phi1, t[2], d, which="ij"), "float"))
+
+        return {"PyMatterSim.utils.pbc.remove_pbc": s_remove_pbc,
+                f"{MOD}.PairInteractions.caller": s_caller,
+                f"{MOD}.HessianMatrix.pair_matrix": s_pair_matrix}
+
+    # ------------------------------------------------------------------------------------------ loop summaries
+    def _hints(self, S):
+        """written summaries of the two particle loops, phrased over the spec (hessian_spec); init/step are obligations"""
+        from pyvc.loops import written_summary
+        from pyvc.state import cur
+        d = S.d
+        lo_, li_ = _find_loops()
+        fname = f"{MOD}.HessianMatrix.diagonalize_hessian"
+
+        def hsid(frame):
+            h = frame.env.get("hessian_matrix")
+            if not isinstance(h, A.Arr):
+                from pyvc.sv import EngineError
+                raise EngineError("the particle loop no longer works on a local array `hessian_matrix`")
+            return h.sid
+
+        def distinct(i, j):
+            """instance of the precondition `no two particles coincide (mod periodic lattice)`"""
+            return sv.zb(sv.implies(sv.cmp("!=", i, j), sv.cmp(">", S.r2(i, j), 0)))
+
+        def outer(interp, s, frame, st, lo, hi, item_fn):
+            sid = hsid(frame)
+
+            def at(k):
+                def fn(idx):
+                    a, b = idx
+                    return sv.ite(sv.cmp("<", sv.floordiv(a, d), k), lambda: S.hessian_spec(a, b), sv.to_frac(0.0))
+                return fn
+            return written_summary(interp, s, frame, st, lo, hi, item_fn, {sid: at}, label="particle-loop-i")
+
+        def inner(interp, s, frame, st, lo, hi, item_fn):
+            sid = hsid(frame)
+            i = frame.env["i"]
+            pre = st.heap[sid].data
+            # instance of the distinctness precondition for the pair (i, j) of the step
+            id0 = sv.mul(i, d)
+
+            def rows(a):
+                return sv.and_(sv.cmp(">=", a, id0), sv.cmp("<", a, sv.add(id0, d)))
+
+            def at(k):
+                def fn(idx):
+                    a, b = idx
+                    p, q = sv.sub(a, id0), sv.mod(b, d)
+                    jb = sv.floordiv(b, d)
+                    return sv.ite(rows(a),
+                                  lambda: sv.ite(rows(b), lambda: sv.add(pre(idx), S.diag_sum(i, p, sv.sub(b, id0), upto=k)),
+                                                 lambda: sv.ite(sv.and_(sv.cmp("<", jb, k), S.WITHIN(i, jb)), lambda: S.off_entry(i, jb, p, q), lambda: pre(idx))),
+                                  lambda: pre(idx))
+                return fn
+            parts = {sid: [("assembly:diagonal-block=sum_j-B(i,j)/m_i", lambda idx: sv.and_(rows(idx[0]), rows(idx[1]))),
+                           ("assembly:off-diagonal-block=-B(i,j)/sqrt(m_i.m_j)", lambda idx: sv.and_(rows(idx[0]), sv.not_(rows(idx[1])))),
+                           ("assembly:other-rows-untouched", lambda idx: sv.not_(rows(idx[0])))]}
+            return written_summary(interp, s, frame, st, lo, hi, item_fn, {sid: at}, parts=parts, label="particle-loop-j",
+                                   assume_at=lambda j: [distinct(i, j)] + S.defs(i, j) + S.sqrt_mm())
+        return {(fname, "for", lo_): outer, (fname, "for", li_): inner}
+
+    def setup(self, ctx, case):
+        d = int(case[2])
+        K = int(case.split("K=")[1])
+        S = Sys(ctx, d, K)
+        S.ip = ctx.obj(MOD, "InteractionParams", dict(model_name=ctx.enum(MOD, "ModelName", "inverse_power_law"), ipl_n=ctx.real("n"),
+                                                      ipl_A=ctx.real("A"), harmonic_hertz_alpha=ctx.real("alpha")))
+        ctx.interp.summaries.update(self._summaries(S))
+        ctx.interp.loop_hints.update(self._hints(S))
+        return [S.obj, S.ip], dict(saveevecs=ctx.bool("saveevecs"), savehessian=True, outputfile="out"), dict(S=S, d=d, K=K)
+
+    def clause_names(self, case):
+        return ["assembly:diagonal-block=sum_j-B(i,j)/m_i", "assembly:off-diagonal-block=-B(i,j)/sqrt(m_i.m_j)", "assembly:other-rows-untouched",
+                "saved-matrix=M^-1/2.d2U.M^-1/2"]
+
+    def ensures(self, ctx, case, inp, out):
+        S, d = inp["S"], inp["d"]
+        saves = [e for e in out.state.trace if e[0] == "np.save"]
+        hs = [e for e in saves if e[1] == "out.hessianmatrix.npy"]
+        ok = len(hs) == 1 and isinstance(hs[0][2], A.Arr) and hs[0][2].ndim == 2
+        if not ok:
+            yield "saved-matrix=M^-1/2.d2U.M^-1/2", False
+            return
+        Hs = hs[0][2]
+        a, b = ctx.int("a"), ctx.int("b")
+        n = sv.mul(d, S.N)
+        inr = sv.and_(a >= 0, b >= 0, sv.cmp("<", a, n), sv.cmp("<", b, n))
+        shape_ok = A.dim_eq_syntactic(Hs.shape[0], n) and A.dim_eq_syntactic(Hs.shape[1], n)
+        yield "saved-matrix=M^-1/2.d2U.M^-1/2", sv.and_(shape_ok, sv.implies(inr, sv.cmp("==", Hs.get((a, b)), S.hessian_spec(a, b))))
+
+    def replay(self, case, clause, model, seed):
+        return _replay_diag(case, clause, model, seed)
+
+
+def _replay_diag(case, clause, model, seed, trials=36):
+    """the real diagonalize_hessian against an independently coded pair energy: analytic second derivatives (pyvc.diff on
+    the documented potentials, floats) and central finite differences of U; symmetry; translations; omega; PR"""
+    import importlib
+    import itertools
+    import math
+    import os
+    import random
+    import tempfile
+
+    import numpy as np
+    from contracts import C12
+    from pyvc import conc
+    H = importlib.import_module(MOD)
+    RUm = importlib.import_module(RU)
+    d = int(case[2])
+    K = int(case.split("K=")[1].split("/")[0])
+    rng = random.Random(seed)
+    models = ["inverse_power_law", "lennard_jones", "harmonic_hertz"]
+
+    def minimg(v, cell, ppp):
+        f = v @ np.linalg.inv(cell)
+        f = f - np.rint(f) * ppp
+        return f @ cell
+
+    def potential(name, shift, eps, sig, rc, par):
+        """phi(r): documented s(r), force-shifted at rc when shifting is on"""
+        def s(r):
+            if name == "lennard_jones":
+                return 4 * eps * ((sig / r) ** 12 - (sig / r) ** 6)
+            if name == "inverse_power_law":
+                return par["A"] * eps * (sig / r) ** par["n"]
+            return eps / par["alpha"] * (1 - r / sig) ** par["alpha"]
+
+        def s1(r):
+            if name == "lennard_jones":
+                return -24 * eps / r * (2 * (sig / r) ** 12 - (sig / r) ** 6)
+            if name == "inverse_power_law":
+                return -par["A"] * eps * par["n"] / r * (sig / r) ** par["n"]
+            return -eps / sig * (1 - r / sig) ** (par["alpha"] - 1)
+        if shift and name != "harmonic_hertz":
+            return lambda r: s(r) - s(rc) - (r - rc) * s1(rc)
+        return s
+
+    for k in range(trials):
+        name = models[k % 3]
+        shift = (k // 3) % 2 == 0
+        g = 3
+        pts = list(itertools.product(range(g), repeat=d))
+        rng.shuffle(pts)
+        N = [2, 3, 4, 5, 6][k % 5] if d == 3 else [2, 3, 5, 7, 9][k % 5]
+        pts = pts[:N]
+        pos = np.array([[c + rng.uniform(-0.15, 0.15) for c in pnt] for pnt in pts], dtype=float)
+        cell = np.diag([float(g)] * d)
+        if k % 4 == 1:      # triclinic (lower-triangular h-matrix, as read from LAMMPS)
+            for a_ in range(d):
+                for b_ in range(a_):
+                    cell[a_, b_] = rng.uniform(-0.3, 0.3)
+        ppp = np.array([1] * d) if k % 6 != 5 else np.array([rng.randint(0, 1) for _ in range(d)])
+        types = np.array([rng.randint(1, K) for _ in range(N)])
+        if k < 12 and N >= 2 and K >= 2:
+            types[0], types[1] = 1, 2
+        masses = {a_ + 1: rng.uniform(0.5, 3.0) for a_ in range(K)}
+        if k == 0:
+            for a_ in range(K):
+                v = _fr((model or {}).get(f"m_{a_ + 1}"))
+                if v is not None and v > 0:
+                    masses[a_ + 1] = v
+        if k % 5 == 4:
+            masses = {a_ + 1: 1.0 for a_ in range(K)}      # equal masses (the case the repository's test has)
+        eps = np.zeros((K, K))
+        sig = np.zeros((K, K))
+        rc = np.zeros((K, K))
+        for a_ in range(K):
+            for b_ in range(a_, K):
+                eps[a_, b_] = eps[b_, a_] = rng.uniform(0.5, 2.0)
+                sig[a_, b_] = sig[b_, a_] = rng.uniform(0.9, 1.2)
+                rc[a_, b_] = rc[b_, a_] = rng.uniform(1.25, 1.6) if name != "harmonic_hertz" else sig[a_, b_] * 1.0
+        if name == "harmonic_hertz":
+            sig = sig * 1.35
+            rc = sig.copy()
+        par = {"n": float(rng.choice([6, 10, 12])), "A": rng.uniform(0.5, 2.0), "alpha": rng.choice([2.0, 2.5, 3.0])}
+        # skip configurations with a pair at a minimum-image tie or within 2e-3 of the cutoff (U not twice differentiable there)
+        ok = True
+        for i in range(N):
+            for j in range(N):
+                if i == j:
+                    continue
+                f = (pos[i] - pos[j]) @ np.linalg.inv(cell)
+                if np.any(np.abs(np.abs(f - np.rint(f)) - 0.5) < 0.03):
+                    ok = False
+                r = np.linalg.norm(minimg(pos[i] - pos[j], cell, ppp))
+                if abs(r - rc[types[i] - 1, types[j] - 1]) < 2e-3 or r < 0.3:
+                    ok = False
+        if not ok:
+            continue
+        snap = RUm.SingleSnapshot(timestep=0, nparticle=N, particle_type=types.copy(), positions=pos.copy(), boxlength=np.diag(cell).copy(),
+                                  boxbounds=np.array([[0.0, cell[c, c]] for c in range(d)]), realbounds=np.array([[0.0, cell[c, c]] for c in range(d)]),
+                                  hmatrix=cell.copy())
+        ip = H.InteractionParams(model_name=getattr(H.ModelName, name), ipl_n=par["n"], ipl_A=par["A"], harmonic_hertz_alpha=par["alpha"])
+        inputs = {"model": name, "shift": shift, "ndim": d, "positions": pos.tolist(), "particle_type": types.tolist(), "hmatrix": cell.tolist(),
+                  "ppp": ppp.tolist(), "masses": masses, "epsilons": eps.tolist(), "sigmas": sig.tolist(), "r_cuts": rc.tolist(), "params": par}
+        with tempfile.TemporaryDirectory() as tmp:
+            hm = H.HessianMatrix(snapshot=snap, masses=dict(masses), epsilons=eps.copy(), sigmas=sig.copy(), r_cuts=rc.copy(), ppp=ppp.copy(), shiftpotential=shift)
+            out = os.path.join(tmp, "out")
+            try:
+                hm.diagonalize_hessian(interaction_params=ip, saveevecs=True, savehessian=True, outputfile=out)
+                Hs = np.load(out + ".hessianmatrix.npy")
+                evecs = np.load(out + ".evecs.npy")
+                import csv
+                with open(out + ".omega_PR.csv") as fcsv:
+                    rows = list(csv.DictReader(fcsv))
+            except Exception as e:
+                return {"ran": True, "failed": True, "inputs": inputs, "detail": f"raises {type(e).__name__}: {e}", "searched": k + 1}
+        omega = np.array([float(r_["omega"]) for r_ in rows])
+        PR = np.array([float(r_["PR"]) for r_ in rows])
+        mvec = np.array([masses[int(t)] for t in types])
+        # ---- independent energy and its derivatives
+        def U(x):
+            e = 0.0
+            for i in range(N):
+                for j in range(N):
+                    if i == j:
+                        continue
+                    ti, tj = types[i] - 1, types[j] - 1
+                    r = float(np.linalg.norm(minimg(x[i] - x[j], cell, ppp)))
+                    if r <= rc[ti, tj]:
+                        e += 0.5 * potential(name, shift, eps[ti, tj], sig[ti, tj], rc[ti, tj], par)(r)
+            return e
+        Ha = np.zeros((d * N, d * N))        # analytic: blocks from pyvc.diff + the documented potentials (C12 spec), floats
+        for i in range(N):
+            for j in range(N):
+                if i == j:
+                    continue
+                ti, tj = types[i] - 1, types[j] - 1
+                x = minimg(pos[i] - pos[j], cell, ppp)
+                r = float(np.linalg.norm(x))
+                if r <= rc[ti, tj]:
+                    env = dict(r=r, epsilon=eps[ti, tj], sigma=sig[ti, tj], r_c=rc[ti, tj], n=par["n"], A=par["A"], alpha=par["alpha"])
+                    t1, t1rc, t2 = C12.spec_triple(name, env, shift, M=conc)
+                    B = np.array(block_spec(list(x), t1 - t1rc, t2, d, M=conc, which="ii"), float)
+                    Ha[i * d:(i + 1) * d, i * d:(i + 1) * d] += B / mvec[i]
+                    Ha[i * d:(i + 1) * d, j * d:(j + 1) * d] = -B / math.sqrt(mvec[i] * mvec[j])
+        scale = 1 + np.abs(Ha).max()
+        bad = None
+        if Hs.shape != Ha.shape:
+            bad = f"saved matrix has shape {Hs.shape}"
+        if bad is None and np.abs(Hs - Ha).max() > 1e-8 * scale:
+            a_, b_ = np.unravel_index(np.argmax(np.abs(Hs - Ha)), Hs.shape)
+            bad = (f"saved hessian[{a_},{b_}] = {Hs[a_, b_]} but M^-1/2 d2U M^-1/2 = {Ha[a_, b_]} (particles {a_ // d},{b_ // d}; "
+                   f"masses {mvec[a_ // d]}, {mvec[b_ // d]})")
+        if bad is None and np.abs(Hs - Hs.T).max() > 1e-8 * scale:
+            bad = "saved matrix not symmetric"
+        if bad is None and np.all(ppp == 1):
+            for q in range(d):
+                v = np.zeros(d * N)
+                v[q::d] = np.sqrt(mvec)
+                res = Hs @ v
+                if np.abs(res).max() > 1e-7 * scale:
+                    bad = f"mass-weighted uniform translation along axis {q} is not annihilated: |H v|_max = {np.abs(res).max()}"
+                    break
+        if bad is None and N * d <= 14:
+            # finite differences of the independently coded energy
+            h = 1e-4
+            Hf = np.zeros_like(Ha)
+            flat = pos.reshape(-1)
+            for a_ in range(d * N):
+                for b_ in range(a_, d * N):
+                    def Ush(sa, sb):
+                        y = flat.copy()
+                        y[a_] += sa * h
+                        y[b_] += sb * h
+                        return U(y.reshape(N, d))
+                    v = (Ush(1, 1) - Ush(1, -1) - Ush(-1, 1) + Ush(-1, -1)) / (4 * h * h)
+                    Hf[a_, b_] = Hf[b_, a_] = v / math.sqrt(mvec[a_ // d] * mvec[b_ // d])
+            if np.abs(Hf - Hs).max() > 5e-4 * scale:
+                a_, b_ = np.unravel_index(np.argmax(np.abs(Hs - Hf)), Hs.shape)
+                bad = f"saved hessian[{a_},{b_}] = {Hs[a_, b_]} but finite differences of the pair energy give {Hf[a_, b_]}"
+        if bad is None:
+            lam = np.linalg.eigvalsh(Hs)
+            want = np.where(lam > 0, np.sqrt(np.abs(lam)), lam)
+            if omega.shape != want.shape or np.abs(np.sort(omega) - np.sort(want)).max() > 1e-6 * (1 + np.abs(want).max()):
+                bad = "reported frequencies are not the square roots of the eigenvalues of the saved matrix"
+            elif not np.all((PR > 0) & (PR <= 1 + 1e-9)):
+                bad = f"participation ratios outside (0,1]: {PR.tolist()}"
+            else:
+                for n_ in range(evecs.shape[1]):
+                    e_ = evecs[:, n_].reshape(N, d)
+                    a2 = (e_ * e_).sum(axis=1)
+                    w_ = a2.sum() ** 2 / (N * (a2 * a2).sum())
+                    if abs(w_ - PR[n_]) > 1e-9:
+                        bad = f"PR of mode {n_} is {PR[n_]}, definition gives {w_}"
+                        break
+        if bad:
+            return {"ran": True, "failed": True, "from_model": False, "searched": k + 1, "inputs": inputs, "detail": bad}
+    return {"ran": True, "failed": False, "searched": trials,
+            "detail": "saved matrix = analytic and finite-difference mass-weighted Hessian of the independently coded pair energy; symmetric; translations annihilated; omega, PR as specified"}
+
+
+UNITS = [PairMatrix(), ParticipationRatio(), Diagonalize()]
+
+
+def lemmas():
+    x = sv.real("x")
+    return [("lemma:x>0=>sqrt(x.x)=x", sv.implies(x > 0, sv.cmp("==", sv.sqrt(sv.mul(x, x)), x)))]
+
+
+def extra_checks(tier, seed, repo):
+    from pyvc.vc import prove_lemmas
+    return {"obligations": prove_lemmas("C11", lemmas())}
 
 MANIFEST = {
     "text": "in progress",
